@@ -18,9 +18,27 @@ ASSUMPTIONS = ["behavioural level (40 modules with overrides per run): the gener
                "must accept it and resolve every override to the assigned value / the WGSL default"]
 
 
+def _variant(decl):
+    return decl + "\n@fragment fn fs_main() -> @location(0) vec4<f32> { return vec4<f32>(f32(gain)); }\n"
+
+
+# one include path regenerated after edits that keep the file's length: the override struct must describe the source
+# given with THIS call (decl text, truth)
+SAME_PATH = [
+    ("@id(1) override gain: f32;", [{"name": "gain", "ty": "f32", "id": 1, "default": False, "dflt": None}]),
+    ("@id(2) override gain: u32;", [{"name": "gain", "ty": "u32", "id": 2, "default": False, "dflt": None}]),
+    ("@id(3) override gain: i32;", [{"name": "gain", "ty": "i32", "id": 3, "default": False, "dflt": None}]),
+    ("override gain: f32 = 1.5; ", [{"name": "gain", "ty": "f32", "id": None, "default": True, "dflt": {"lit": 1.5}}]),
+]
+
+
 def cases(rng, tier):
     n = {"quick": 400, "search": 800, "thorough": 3000}[tier]
     out = []
+    for k in range(8):
+        decl, truth = SAME_PATH[k % len(SAME_PATH)]
+        out.append({"wgsl": _variant(decl), "family": "same_path_same_length", "opts": {}, "include": "gen/overrides.wgsl",
+                    "truth": truth, "assignments": sink.override_assignments(rng, truth)})
     for i in range(n):
         s = sink.sink(rng, n_consts=0, n_overrides=rng.choice([0, 1, 2, 3, 4, 6]))
         out.append({"wgsl": s["wgsl"], "family": "overrides", "opts": {"rustfmt": i % 10 == 0}, "truth": s["overrides"],
